@@ -62,7 +62,17 @@ func renameBack(c *Ctx) (map[string]bool, []string) {
 	for k := range ch3 {
 		changed[k] = true
 	}
-	return changed, append(notes, n3...)
+	notes = append(notes, n3...)
+	ch4, n4 := lockSectionsToClosures(c)
+	for k := range ch4 {
+		changed[k] = true
+	}
+	notes = append(notes, n4...)
+	ch5, n5 := reextractEnqueue(c)
+	for k := range ch5 {
+		changed[k] = true
+	}
+	return changed, append(notes, n5...)
 }
 
 func renamePhase(c *Ctx, typesOnly bool) (map[string]bool, []string) {
